@@ -38,6 +38,8 @@ def run(action):
                            action[1], action[1])
     if kind == "equate":
         return Unit.named(action[1]).equals(parse_mag(action[2]) * build(action[3]))
+    if kind == "equatep":
+        return (Unit.named(action[1]) ** action[2]).equals(parse_mag(action[3]) * build(action[4]))
     if kind == "query":
         return (parse_mag(action[1]) * build(action[2])).in_unit(build(action[3]))
     if kind == "cmp":
@@ -62,7 +64,7 @@ def outcome(action):
 def main():
     actions = json.load(open(sys.argv[1], encoding="utf-8"))
     for a in actions[:-1]:
-        if a[0] in ("define", "equate"):
+        if a[0] in ("define", "equate", "equatep"):
             o = outcome(a)
             if o.startswith("ERR"):
                 pass
